@@ -8,6 +8,7 @@ import (
 	"bytes"
 	"fmt"
 	"reflect"
+	"unicode/utf8"
 
 	"github.com/veraison/eat"
 	cose "github.com/veraison/go-cose"
@@ -638,6 +639,293 @@ func componentCopies(r *Run, rng *Rng, n int) {
 		ga, gb := got[0].(*psa.SwComponent), got[1].(*psa.SwComponent)
 		if compObs(ga) != compObs(&a) || compObs(gb) != bBefore {
 			r.Fail("wire-format", fmt.Sprintf("components emitted with values other than the ones held: first %s (holds %s), second %s (holds %s)", compObs(ga), compObs(&a), compObs(gb), bBefore))
+		}
+	}
+}
+
+// heldOutputs: what an encoder returned belongs to the caller. Each output is kept as returned, next to a private copy
+// taken at once; after later calls of the same (or any other) encoder the two must still be equal.
+type heldOutputs struct {
+	kept, copies [][]byte
+	what         []string
+}
+
+func (h *heldOutputs) add(what string, b []byte) {
+	if b == nil {
+		return
+	}
+	h.kept = append(h.kept, b)
+	h.copies = append(h.copies, append([]byte{}, b...))
+	h.what = append(h.what, what)
+	if len(h.kept) > 6 {
+		h.kept, h.copies, h.what = h.kept[1:], h.copies[1:], h.what[1:]
+	}
+}
+
+// check reports the first held output that a later call has overwritten.
+func (h *heldOutputs) check() string {
+	for i := range h.kept {
+		if !bytes.Equal(h.kept[i], h.copies[i]) {
+			return fmt.Sprintf("the bytes returned by an earlier %s changed after a later encoding call (%d bytes; first difference at %d)", h.what[i], len(h.kept[i]), firstDiff(h.kept[i], h.copies[i]))
+		}
+	}
+	return ""
+}
+
+func firstDiff(a, b []byte) int {
+	for i := 0; i < len(a) && i < len(b); i++ {
+		if a[i] != b[i] {
+			return i
+		}
+	}
+	return len(a)
+}
+
+// signThenSignElsewhere (C03): an Evidence that signed keeps verifying, and its token keeps decoding, whatever is
+// encoded or signed afterwards elsewhere.
+func signThenSignElsewhere(r *Run, rng *Rng, n int) {
+	ks := keys()
+	for i := 0; i < n; i++ {
+		k := ks[rng.Intn(6)]
+		signer, _ := cose.NewSigner(k.algs[0], k.priv)
+		da, db := c19Claims(rng, true), c19Claims(rng, true)
+		evA, evB := &psa.Evidence{}, &psa.Evidence{}
+		if evA.SetClaims(da.Build()) != nil || evB.SetClaims(db.Build()) != nil {
+			continue
+		}
+		r.ImplOnly("two-evidences", false, fmt.Sprintf("two-evidences key=%d", k.id))
+		tokA, err := evA.ValidateAndSign(signer)
+		if err != nil {
+			r.Fail("sign-valid", fmt.Sprintf("ValidateAndSign of valid claims fails: %v", err))
+			continue
+		}
+		tokACopy := append([]byte{}, tokA...)
+		// elsewhere: another Evidence signs, other claims are encoded
+		_, _ = evB.ValidateAndSign(signer)
+		_, _ = psa.ValidateAndEncodeClaimsToCBOR(db.Build())
+		_, _ = psa.EncodeClaimsToJSON(db.Build())
+		if err := evA.Verify(k.pub); err != nil {
+			r.Fail("verify-issued", fmt.Sprintf("the signing Evidence no longer verifies after other claims were encoded and signed elsewhere: %v", err))
+		}
+		if !bytes.Equal(tokA, tokACopy) {
+			r.Fail("verify-issued", "the token returned by ValidateAndSign changed after a later call")
+		}
+		if e2, err := psa.DecodeAndValidateEvidenceFromCOSE(tokA); err != nil || e2.Verify(k.pub) != nil {
+			r.Fail("decode-issued", fmt.Sprintf("the issued token no longer decodes and verifies after later calls: %v", err))
+		}
+		// the payload signed is the encoding of the claims as they are at the time of signing: a setter called on the
+		// attached object after SetClaims counts
+		dc := c19Claims(rng, true)
+		c := dc.Build()
+		evC := &psa.Evidence{}
+		if evC.SetClaims(c) != nil {
+			continue
+		}
+		nonce := fill(32, byte(1+rng.Intn(250)))
+		if c.SetNonce(nonce) != nil || c.SetClientID(int32(rng.Intn(1000))) != nil {
+			continue
+		}
+		tokC, err := evC.ValidateAndSign(signer)
+		if err != nil {
+			r.Fail("sign-valid", fmt.Sprintf("ValidateAndSign after a setter on the attached claims fails: %v", err))
+			continue
+		}
+		want, _ := psa.ValidateAndEncodeClaimsToCBOR(c)
+		if _, payload, _, ok := envelopeParts(tokC); !ok || !bytes.Equal(payload, want) {
+			r.Fail("payload-is-validated-encoding", "after SetClaims and a later setter call on the attached claims, the signed payload is not the encoding of the claims as they now are")
+		}
+	}
+}
+
+// revalidate (C01): the verdict depends on what the claims-set holds now, not on what it held when it was last
+// validated: a component changed in place through the pointer the getter hands out, or a second token decoded into the
+// same object, is seen by the next Validate().
+func revalidate(r *Run, rng *Rng, n int) {
+	for i := 0; i < n; i++ {
+		p := 1 + i%2
+		d := baseValid(rng, p)
+		d.Canon, d.Prof = canonOf(p), sp(canonOf(p))
+		d.NoSw, d.SwKind = nil, SwList
+		d.Sw = []CompDesc{validComp(rng), validComp(rng)}
+		normalise(&d)
+		if hasBadUTF8(&d) || !conformant(&d) {
+			continue
+		}
+		r.ImplOnly(fmt.Sprintf("revalidate/p%d", p), false, fmt.Sprintf("revalidate %d %s", i%4, d.Line()))
+		var c psa.IClaims
+		if i%4 < 2 {
+			c, _ = psa.NewClaims(canonOf(p))
+			if !applyDesc(c, &d) {
+				continue
+			}
+		} else {
+			c, _ = psa.DecodeClaimsFromCBOR(tokenOf(&d).Bytes())
+		}
+		if c == nil || c.Validate() != nil {
+			r.Fail("validate-iff-conformant", "a conformant claims-set does not validate")
+			continue
+		}
+		comps, err := c.GetSoftwareComponents()
+		if err != nil || len(comps) != 2 {
+			continue
+		}
+		switch i % 2 {
+		case 0:
+			// a component made malformed in place
+			short := fill(31, 9)
+			comps[1].(*psa.SwComponent).MeasurementValue = &short
+			if c.Validate() == nil {
+				r.Fail("validate-iff-conformant", "a component was given a 31-byte measurement value in place (through the pointer GetSoftwareComponents returned) and the claims-set still validates")
+			}
+			if _, gerr := c.GetSoftwareComponents(); gerr == nil {
+				r.Fail("getters-after-validate", "GetSoftwareComponents succeeds on a list holding a component with a 31-byte measurement value")
+			}
+		default:
+			// a second token, with a malformed component, decoded into the same object
+			bad := d
+			bad.Sw = []CompDesc{validComp(rng), {MV: bp(fill(31, 9)), SID: bp(fill(32, 1))}}
+			tok := tokenOf(&bad).Bytes()
+			var derr error
+			switch x := c.(type) {
+			case *psa.P1Claims:
+				if i%4 == 1 {
+					derr = x.UnmarshalJSON([]byte(jsonOf(&bad).Text()))
+				} else {
+					derr = x.UnmarshalCBOR(tok)
+				}
+			case *psa.P2Claims:
+				if i%4 == 1 {
+					derr = x.UnmarshalJSON([]byte(jsonOf(&bad).Text()))
+				} else {
+					derr = x.UnmarshalCBOR(tok)
+				}
+			}
+			if derr == nil && c.Validate() == nil {
+				r.Fail("validate-iff-conformant", "a token with a malformed component was decoded into a claims-set that had validated before, and it still validates")
+			}
+		}
+	}
+}
+
+// decodedThenChanged (C09, C12): a decoded claims-set is an ordinary claims-set. After a component is changed through
+// the pointer the getter hands out, or the buffer it was decoded from is overwritten, encoding gives the claims as they
+// now are; an Evidence renders the claims it holds now, not the ones it held when it was last rendered.
+func decodedThenChanged(r *Run, rng *Rng, n int) {
+	for i := 0; i < n; i++ {
+		p := 1 + i%2
+		d := baseValid(rng, p)
+		d.Canon, d.Prof = canonOf(p), sp(canonOf(p))
+		d.NoSw, d.SwKind = nil, SwList
+		d.Sw = []CompDesc{validComp(rng), validComp(rng)}
+		normalise(&d)
+		if hasBadUTF8(&d) || !conformant(&d) {
+			continue
+		}
+		r.ImplOnly(fmt.Sprintf("decoded-then-changed/p%d", p), false, "decoded-then-changed "+d.Line())
+		buf := tokenOf(&d).Bytes()
+		c, err := psa.DecodeClaimsFromCBOR(buf)
+		if err != nil {
+			continue
+		}
+		// the input buffer is the caller's again once the decoder has returned
+		for k := range buf {
+			buf[k] = 0xff
+		}
+		enc0, err := psa.ValidateAndEncodeClaimsToCBOR(c)
+		if err != nil || !bytes.Equal(enc0, tokenOf(&d).Bytes()) {
+			r.Fail("roundtrip-bytes", fmt.Sprintf("after the input buffer was overwritten, the decoded claims-set encodes to something else than the token it was decoded from (%v)", err))
+			continue
+		}
+		comps, err := c.GetSoftwareComponents()
+		if err != nil || len(comps) != 2 {
+			continue
+		}
+		newMV := fill(48, byte(1+rng.Intn(250)))
+		if comps[0].(*psa.SwComponent).SetMeasurementValue(newMV) != nil || comps[1].(*psa.SwComponent).SetVersion("9.9.9") != nil {
+			continue
+		}
+		want := d
+		want.Sw = []CompDesc{d.Sw[0], d.Sw[1]}
+		want.Sw[0].MV = bp(newMV)
+		want.Sw[1].Ver = bp([]byte("9.9.9"))
+		enc1, err := psa.ValidateAndEncodeClaimsToCBOR(c)
+		if err != nil || !bytes.Equal(enc1, tokenOf(&want).Bytes()) {
+			r.Fail("roundtrip-getters", "a component of a decoded claims-set was changed through its setters; the encoding does not carry the new values")
+		}
+		c2, err := psa.DecodeClaimsFromCBOR(enc1)
+		if err != nil || gettersOnly(observe(c2)) != gettersOnly(observe(c)) {
+			r.Fail("roundtrip-getters", "decode(encode(x)) differs from x after a component of the decoded x was changed in place")
+		}
+		j1, err := psa.ValidateAndEncodeClaimsToJSON(c)
+		if jt, perr := parseJSONText(j1); err != nil || perr != nil || sortedMembers(jt) != sortedMembers(jsonOf(&want)) {
+			r.Fail("json-shape", "a component of a decoded claims-set was changed through its setters; the JSON does not carry the new values")
+		}
+		// Evidence.MarshalJSON follows the attached claims
+		ev := &psa.Evidence{}
+		if ev.SetClaims(c) != nil {
+			continue
+		}
+		before, _ := ev.MarshalJSON()
+		_ = c.SetClientID(int32(-1 - rng.Intn(1000)))
+		after, _ := ev.MarshalJSON()
+		now, _ := psa.EncodeClaimsToJSON(c)
+		ta, e1 := parseJSONText(after)
+		tn, e2 := parseJSONText(now)
+		if e1 != nil || e2 != nil || sortedMembers(ta) != sortedMembers(tn) {
+			r.Fail("json-shape", fmt.Sprintf("Evidence.MarshalJSON after a setter on the attached claims renders %s, the claims are %s (before the setter: %s)", trunc(string(after), 120), trunc(string(now), 120), trunc(string(before), 60)))
+		}
+	}
+}
+
+// illFormedTextNeverEmitted (C10): a token whose text claim is not valid UTF-8 is refused by the decoder; should a
+// decoder ever let one through, what the validating encoder then emits must still be well-formed CBOR text.
+func illFormedTextNeverEmitted(r *Run, rng *Rng, n int) {
+	var walk func(nd *Node) bool
+	walk = func(nd *Node) bool {
+		if nd.Kind == kTstr && !utf8.Valid(nd.B) {
+			return false
+		}
+		for _, k := range nd.Kids {
+			if !walk(k) {
+				return false
+			}
+		}
+		for _, pr := range nd.Pairs {
+			if !walk(pr[0]) || !walk(pr[1]) {
+				return false
+			}
+		}
+		return true
+	}
+	for i := 0; i < n; i++ {
+		p := 1 + i%2
+		d := baseValid(rng, p)
+		d.Canon, d.Prof = canonOf(p), sp(canonOf(p))
+		normalise(&d)
+		if hasBadUTF8(&d) || !conformant(&d) {
+			continue
+		}
+		bad := Pick(rng, badUTF8)
+		switch {
+		case i%3 == 0 || len(d.Sw) == 0:
+			d.VSI = sp(bad)
+		case i%3 == 1:
+			d.Sw[0].MD = bp([]byte(bad))
+		default:
+			d.Sw[0].Ver = bp([]byte(bad))
+		}
+		tok := tokenOf(&d).Bytes()
+		r.ImplOnly(fmt.Sprintf("ill-formed-text/p%d", p), false, "ill-formed-text "+hx(tok))
+		c, err := psa.DecodeAndValidateClaimsFromCBOR(tok)
+		if err != nil {
+			continue
+		}
+		out, err := psa.ValidateAndEncodeClaimsToCBOR(c)
+		if err != nil {
+			continue
+		}
+		if nd, _, perr := parseNode(out, 0); perr != nil || !walk(nd) {
+			r.Fail("wire-format", fmt.Sprintf("a token carrying text that is not valid UTF-8 was accepted and is re-emitted with that text: %x", out))
 		}
 	}
 }
